@@ -31,8 +31,9 @@ ENGINE = "shadow-list"
 TECHNIQUE = (
     "runtime oracle: record sequences are logged through gallia's real logger and zstd file handler while a shadow "
     "list (text, level, tags, created) is captured at log time; PenlogReader (forward, reverse, offset k, priority "
-    "thresholds, reused reader objects) and the hr entry point (in-process and as subprocess; --head/--tail/--reverse/"
-    "--priority/--lines; .zst, .gz, plain, prefix-less, stdin file and pipe) are compared with list operations on the shadow list"
+    "thresholds, reused reader objects incl. len() asked in the middle of an iteration) and the hr entry point (in-process and as "
+    "subprocess; --head/--tail/--reverse/--priority/--lines; .zst, .gz, plain, prefix-less, stdin file and pipe; one file, the same file "
+    "twice, several different files of different lengths incl. an empty one) are compared with list operations on the shadow list"
 )
 LEVEL_TEXT = (
     "Exploration: some hundred (quick) to ten thousand (thorough) generated logs of length 0..3000 (arbitrary Unicode scalar "
@@ -51,7 +52,12 @@ RULE = (
     "lengths 0,1,2,3,5,7,99,100,101 enumerated plus random lengths up to 600 (quick) / 3000 (thorough). A case = (log, component "
     "reader|hr|hr-subprocess, container, mode, parameters): for logs of <=3 records every mode x threshold x container x n is "
     "enumerated, larger logs get a fixed core set plus a random sample. A case is trivial only when the log holds exactly one record "
-    "and the mode is unfiltered forward reading; distinct = distinct (log content hash, component, container, mode, parameters)"
+    "and the mode is unfiltered forward reading; distinct = distinct (log content hash, component, container, mode, parameters). "
+    "Per log additionally: three histories on one reused reader object (2..5 operations from len, forward, partial forward, offset k, "
+    "reverse and 'iteration with len(reader) asked after k delivered records' - forward, reverse, offset; the third history starts with "
+    "that operation on a forward pass) and six hr invocations naming 2..4 different files (this log, up to three earlier logs of the shard "
+    "with other lengths, a log without records; empty first / ascending / descending / random order; random containers) in tail, head, "
+    "plain and reverse mode with n from {default, 0, 1, shortest, shortest+1, between, longest, longest+3, random}"
 )
 ASSUMPTIONS = [
     "text is any sequence of Unicode scalar values (no lone surrogates); every text starts with a unique marker '#id<i>#' and payloads/tags never contain '#id'",
@@ -61,7 +67,10 @@ ASSUMPTIONS = [
     "gallia only writes .zst; the .gz, plain, prefix-less and stdin inputs are derived by the harness from the decompressed bytes of that file",
     "hr output: order, multiplicity and text of the records are compared exactly (marker based); tags and time of day are required as substrings of the line header; the level is only observable through the priority filter",
     "subprocess hr runs with PYTHONUTF8=1 (the sandbox has a POSIX locale); stdout is decoded as UTF-8",
-    "reuse of one PenlogReader object for several passes is taken to be covered by 'any navigation mode' (offset table for random access)",
+    "reuse of one PenlogReader object for several passes is taken to be covered by 'any navigation mode' (offset table for random access); "
+    "so is asking len(reader) while an iteration is in progress (a progress display): the iteration must still deliver its full slice",
+    "several FILE arguments on one hr command line: the output is the concatenation of what each file yields alone with the same options "
+    "(-n applies to every file separately)",
 ]
 EXHAUSTIVE = {"quick": False, "thorough": False}
 EXHAUSTIVE_NOTE = "exhaustive sub-space: for the enumerated edge logs with <=3 records all thresholds 0..8 x modes x containers x n in {0..len+2, default} are run"
@@ -98,6 +107,16 @@ def required_reach(tier: str) -> dict[str, int]:
         "hr.head.n-zero": 5, "hr.head.n-less-than-log": 20, "hr.head.n-equals-log": 10, "hr.head.n-greater-than-log": 20,
         "hr.tail.readings_differ": 5, "hr.subprocess": 40, "hr.subprocess.stdin-pipe": 3, "hr.subprocess.stdin-file": 3,
         "filter.drops_some": 100, "filter.drops_all": 20,
+        # several different files on one hr command line
+        "hr.multi-files": 300, "hr.multi-files.tail": 100, "hr.multi-files.head": 60, "hr.multi-files.forward": 20, "hr.multi-files.reverse": 20,
+        "hr.multi-files.different-lengths": 200, "hr.multi-files.empty-file-first": 50, "hr.multi-files.subprocess": 4,
+        "hr.multi-files.tail.earlier-file-shorter-than-n-and-than-later-file": 30,
+        "hr.multi-files.head.earlier-file-shorter-than-n-and-than-later-file": 15,
+        # len(reader) asked inside an iteration of a reused reader object
+        "reader.reuse.len-during-forward-iteration": 100, "reader.reuse.len-during-reverse-iteration": 20, "reader.reuse.len-during-offset-iteration": 20,
+        "reader.reuse.len-during-forward-iteration.records-before-and-after": 50,
+        "reader.reuse.len-during-reverse-iteration.records-before-and-after": 10,
+        "reader.reuse.first-len-during-forward-iteration": 50,
     }
     for lv in LEVEL_NAMES:
         need[f"level.{lv}"] = 20
@@ -316,7 +335,10 @@ class Env:
     thread_errors: list[str] = []
     local_tz: Any = None
     sub_left = 0
+    multi_sub_left = 0
     log_no = 0
+    companions: list[Any] = []  # earlier logs of this shard kept on disk as further FILE arguments of several-files hr runs
+    empty: Any = None  # a log without records written by the real writer
 
 
 def setup_process(ctx: Any, tz: str | None = None) -> None:
@@ -558,11 +580,12 @@ class LimitedOut(io.StringIO):
         return super().write(s)
 
 
-def hr_argv(cand: dict[str, Any], path_arg: str) -> list[str]:
+def hr_argv(cand: dict[str, Any], path_arg: str | list[str]) -> list[str]:
+    """path_arg: one FILE argument, or the list of FILE arguments of a several-files invocation (mode 'multi-files')."""
     a: list[str] = []
     if cand.get("pspec") is not None:
         a += [cand.get("popt", "-p"), cand["pspec"]]
-    mode = cand["mode"]
+    mode = cand.get("submode", cand["mode"])
     if mode == "head":
         a.append("--head")
     elif mode == "tail":
@@ -573,6 +596,8 @@ def hr_argv(cand: dict[str, Any], path_arg: str) -> list[str]:
         a += [cand.get("nopt", "-n"), str(cand["n"])]
     if cand.get("color"):
         a += ["--color", cand["color"]]
+    if isinstance(path_arg, list):
+        return a + path_arg
     a.append(path_arg)
     if mode == "multi":
         a.append(path_arg)
@@ -588,13 +613,21 @@ def _phase_of_tb(tb: Any, mode: str) -> str:
     return mode
 
 
-def exec_hr_inproc(st: LogState, cand: dict[str, Any]) -> dict[str, Any]:
+def exec_hr_inproc(st: LogState | None, cand: dict[str, Any], files: list[tuple[LogState, str]] | None = None) -> dict[str, Any]:
+    """files: the (log, container) pairs of a several-files invocation (then `st` is not used)."""
     from gallia.cli import hr
 
-    c = cand["container"]
-    stdin = c.startswith("stdin")
-    argv = hr_argv(cand, "-" if stdin else str(st.paths[c]))
-    limit = 4 * (sum(len(e["text"]) + len(e["trace"] or "") + 300 for e in st.all) * (2 if cand["mode"] == "multi" else 1)) + (1 << 16)
+    if files is not None:
+        c, stdin = "", False
+        argv = hr_argv(cand, [str(f.paths[fc]) for f, fc in files])
+        entries = [e for f, _ in files for e in f.all]
+    else:
+        assert st is not None
+        c = cand["container"]
+        stdin = c.startswith("stdin")
+        argv = hr_argv(cand, "-" if stdin else str(st.paths[c]))
+        entries = st.all
+    limit = 4 * (sum(len(e["text"]) + len(e["trace"] or "") + 300 for e in entries) * (2 if cand["mode"] == "multi" else 1)) + (1 << 16)
     out = LimitedOut(limit)
     err = io.StringIO()
     old = (sys.argv, sys.stdout, sys.stderr)
@@ -604,6 +637,7 @@ def exec_hr_inproc(st: LogState, cand: dict[str, Any]) -> dict[str, Any]:
     try:
         if stdin:
             saved_fd = os.dup(0)
+            assert st is not None
             if c == "stdin-file":
                 fd = os.open(st.paths[c], os.O_RDONLY)
                 os.dup2(fd, 0)
@@ -649,12 +683,17 @@ def exec_hr_inproc(st: LogState, cand: dict[str, Any]) -> dict[str, Any]:
     return res
 
 
-def exec_hr_subprocess(st: LogState, cand: dict[str, Any]) -> dict[str, Any]:
+def exec_hr_subprocess(st: LogState | None, cand: dict[str, Any], files: list[tuple[LogState, str]] | None = None) -> dict[str, Any]:
     from vf.runner import REPO
 
-    c = cand["container"]
-    stdin = c.startswith("stdin")
-    argv = hr_argv(cand, "-" if stdin else str(st.paths[c]))
+    if files is not None:
+        c, stdin = "", False
+        argv = hr_argv(cand, [str(f.paths[fc]) for f, fc in files])
+    else:
+        assert st is not None
+        c = cand["container"]
+        stdin = c.startswith("stdin")
+        argv = hr_argv(cand, "-" if stdin else str(st.paths[c]))
     env = dict(os.environ)
     env["PYTHONPATH"] = str(REPO / "src")
     env["PYTHONUTF8"] = "1"
@@ -663,9 +702,11 @@ def exec_hr_subprocess(st: LogState, cand: dict[str, Any]) -> dict[str, Any]:
     kw: dict[str, Any] = {}
     fh = None
     if c == "stdin-file":
+        assert st is not None
         fh = open(st.paths[c], "rb")  # noqa: SIM115
         kw["stdin"] = fh
     elif c == "stdin-pipe":
+        assert st is not None
         kw["input"] = st.raw
     else:
         kw["stdin"] = subprocess.DEVNULL
@@ -715,6 +756,25 @@ def exec_reader(st: LogState, cand: dict[str, Any], reader: Any = None) -> dict[
             res["len"] = len(reader)
             return res
         p = PenlogPriority(cand["p"])
+        if mode == "iter-len":
+            # an iteration in progress, len(reader) asked after k records (a progress display), then the iteration goes on
+            d = cand["dir"]
+            if d == "forward":
+                gen = reader.records(priority=p)
+            elif d == "reverse":
+                gen = reader.records(priority=p, offset=-1, reverse=True)
+            else:
+                gen = reader.records(priority=p, offset=cand["off"])
+            limit = 3 * st.N + 10
+            recs = list(itertools.islice(gen, cand["k"]))
+            res["consumed_before_len"] = len(recs)
+            if cand.get("call_len", True):
+                res["len"] = len(reader)
+            recs += list(itertools.islice(gen, limit))
+            if len(recs) >= limit:
+                res["exc"] = "DoesNotTerminate"
+            res["records"] = recs
+            return res
         if mode in ("forward", "partial"):
             gen = reader.records(priority=p)
         elif mode == "reverse-default":
@@ -963,17 +1023,56 @@ def run_case(ctx: Any, st: LogState, cand: dict[str, Any]) -> None:
 
 # ---------------------------------------------------------------------------------------------
 # reuse of one reader object (histories)
-def run_history(ctx: Any, st: LogState, rng: random.Random, ops: list[dict[str, Any]] | None = None) -> None:
+def gen_iter_len_op(st: LogState, rng: random.Random, direction: str | None = None) -> dict[str, Any]:
+    """len(reader) asked in the middle of an iteration: after k delivered records of a forward / reverse / offset pass."""
+    p = rng.choice([8, 8, 8, rng.randrange(9)])
+    d = direction or rng.choice(["forward", "forward", "reverse", "offset"])
+    op: dict[str, Any] = {"mode": "iter-len", "dir": d, "p": p}
+    if d == "offset":
+        op["off"] = rng.randrange(-st.N, st.N)
+    sel = len(M.accepted(st.all, d, p, k=op.get("off"))[0])
+    op["k"] = rng.choice([0, 1, 1, 2, sel // 2, max(sel - 1, 0), sel, rng.randint(0, sel)])
+    return op
+
+
+def eval_iter_len(st: LogState, cand: dict[str, Any], res: dict[str, Any]) -> tuple[str, str, str] | None:
+    """The sequence delivered around the len() call must be the full expected slice, and len() the record count."""
+    d = cand["dir"]
+    if res.get("exc"):
+        return (f"raises-{res['exc']}", f"{d} iteration with len() in between: {res['exc']}", res.get("error", ""))
+    want_e = M.accepted(st.all, d, cand["p"], k=cand.get("off"))[0]
+    want = [e["id"] for e in want_e]
+    got = [rec_id(r.data) for r in res["records"]]
+    if cand.get("call_len", True) and res["len"] != st.N:
+        return ("wrong-count", "len(reader) asked during an iteration differs from the number of records", f"got {res['len']} want {st.N}")
+    if got != want:
+        kind = M.classify(got, want, bounded=False)
+        return (kind, f"{d} iteration with len() asked after {res.get('consumed_before_len')} records: {kind}",
+                f"len() after {res.get('consumed_before_len')} records; got ids {got[:40]} want {want[:40]}")
+    for r, e in zip(res["records"], want_e):
+        fd = field_diffs(r, e)
+        if fd:
+            return (f"{fd[0][0]}-differs", f"a record delivered after the len() call differs in {fd[0][0]}", f"id {e['id']}: {fd[0][1]}")
+    return None
+
+
+def run_history(ctx: Any, st: LogState, rng: random.Random, ops: list[dict[str, Any]] | None = None, lead: str | None = None) -> None:
+    """lead: 'iter-len' makes the first operation a forward pass with len() asked inside it (the offset table has not been
+    built by anything before)."""
     from gallia.log import PenlogReader
 
     if st.N == 0:
         return
     if ops is None:
         ops = []
-        for _ in range(rng.randint(2, 5)):
+        if lead == "iter-len":
+            ops.append(gen_iter_len_op(st, rng, "forward"))
+        for _ in range(rng.randint(2, 5) - len(ops)):
             k = rng.randrange(10)
             p = rng.choice([8, 8, 8, rng.randrange(9)])
-            if k < 2:
+            if rng.random() < 0.25:
+                ops.append(gen_iter_len_op(st, rng))
+            elif k < 2:
                 ops.append({"mode": "len"})
             elif k < 4:
                 ops.append({"mode": "forward", "p": p})
@@ -990,10 +1089,37 @@ def run_history(ctx: Any, st: LogState, rng: random.Random, ops: list[dict[str, 
     except Exception:
         return  # opening is judged by the fresh-reader cases
     read_before = False
+    table_needed_before = False  # did an earlier operation of this history need the offset table (len, seek, reverse)?
     try:
         for idx, op in enumerate(ops):
             cand = {"component": "reader", "container": "zst", **op}
             res = exec_reader(st, cand, reader=reader)
+            if op["mode"] == "iter-len":
+                d = op["dir"]
+                ctx.reach(f"reader.reuse.len-during-{d}-iteration")
+                sel = len(M.accepted(st.all, d, op["p"], k=op.get("off"))[0])
+                if 0 < op["k"] < sel:
+                    ctx.reach(f"reader.reuse.len-during-{d}-iteration.records-before-and-after")
+                    if d == "forward" and not table_needed_before:
+                        ctx.reach("reader.reuse.first-len-during-forward-iteration")
+                v = eval_iter_len(st, cand, res)
+                if v is not None:
+                    key = f"reader/reuse/len-during-iteration/{d}/{v[0]}"
+                    # control: the same pass on a fresh reader without the len() call; the same failure there is not about len()
+                    ctl = dict(cand, call_len=False)
+                    cres = exec_reader(st, ctl)
+                    cv = eval_iter_len(st, ctl, cres)
+                    if cv is not None and cv[0] == v[0]:
+                        key = f"reader/{d}/{v[0]}"
+                    ctx.violation(key, f"reused reader object: operation {idx}: {v[1]}",
+                                  {"log": st.witness_log(), "history": ops[: idx + 1], "failing_op": idx, "detail": v[2][:600], "n_records_in_file": st.N})
+                    ctx.trace(("history", key))
+                    return
+                read_before = True
+                table_needed_before = True
+                continue
+            if op["mode"] in ("len", "offset", "reverse"):
+                table_needed_before = True
             if op["mode"] == "partial":
                 got = [rec_id(r.data) for r in (res["records"] or [])]
                 want = [e["id"] for e in st.all[: op["j"]]]
@@ -1022,6 +1148,149 @@ def run_history(ctx: Any, st: LogState, rng: random.Random, ops: list[dict[str, 
             reader.close()
         except Exception:
             pass
+
+
+# ---------------------------------------------------------------------------------------------
+# hr with several different files on one command line
+MAX_COMPANIONS = 3
+
+
+def retire_log(st: LogState) -> None:
+    """Keep a moderately sized log as a companion for later several-files runs; drop the one it replaces."""
+    if st is Env.empty or any(st is c for c in Env.companions):
+        return
+    if st.N > 400 or len(st.raw) > (1 << 18) or any(c.N == st.N for c in Env.companions):
+        drop_log(st)
+        return
+    Env.companions.append(st)
+    while len(Env.companions) > MAX_COMPANIONS:
+        drop_log(Env.companions.pop(0))
+
+
+def drop_companions() -> None:
+    for c in Env.companions:
+        drop_log(c)
+    Env.companions.clear()
+    if Env.empty is not None:
+        drop_log(Env.empty)
+        Env.empty = None
+
+
+def single_of(cand: dict[str, Any], container: str) -> dict[str, Any]:
+    """The one-file invocation with the same options."""
+    d = {k: v for k, v in cand.items() if k not in ("files", "submode")}
+    d.update(component="hr", container=container, mode=cand["submode"])
+    return d
+
+
+def evaluate_multi(files: list[tuple[LogState, str]], cand: dict[str, Any], res: dict[str, Any]) -> tuple[str, str, str] | None:
+    """Oracle: the output is the concatenation of the per-file slices."""
+    sub = cand["submode"]
+
+    def key(phase: str, kind: str) -> str:
+        return f"hr/{phase}/multiple-files/{kind}"
+
+    lens = [f.N for f, _ in files]
+    if res.get("exc"):
+        return (key(res["phase"] if res["phase"] != "multi-files" else sub, f"raises-{res['exc']}"), f"hr {sub} over {len(files)} files: {res['exc']}", res.get("error", ""))
+    if res["rc"] != 0:
+        return (key(sub, f"exit-code-{res['rc']}"), f"hr {sub} over {len(files)} files exits with {res['rc']}", res.get("stderr", "")[-300:])
+    p = M.pspec_to_prio(cand.get("pspec"))
+    n = cand.get("n") if cand.get("n") is not None else M.HR_DEFAULT_LINES
+    per_file = [M.accepted(f.all, sub, p, n=n) for f, _ in files]
+    got = [int(x) for x in MARK.findall(res["stdout"])]
+    match = M.match_concatenation(got, per_file)
+    if match is None:
+        want = [e["id"] for alts in per_file for e in alts[0]]
+        kind = M.classify(got, want, bounded=sub == "head")
+        return (key(sub, kind), f"hr {sub} over several files: the output is not the concatenation of the per-file slices ({kind})",
+                f"file lengths {lens} n={cand.get('n')} got ids {got[:60]} want {want[:60]}")
+    w = walk_hr_stdout(res["stdout"], match)
+    if w:
+        return (f"hr/record/{w[0]}", f"hr prints a record differently: {w[0]}", w[1])
+    return None
+
+
+def run_multi_case(ctx: Any, files: list[tuple[LogState, str]], cand: dict[str, Any]) -> None:
+    sub = cand["submode"]
+    lens = [f.N for f, _ in files]
+    ctx.case((tuple(f.hash for f, _ in files), cand_ident(cand)))
+    res = exec_hr_subprocess(None, cand, files) if cand["component"] == "hr-subprocess" else exec_hr_inproc(None, cand, files)
+    ctx.reach("hr.multi-files")
+    ctx.reach(f"hr.multi-files.{sub}")
+    if cand["component"] == "hr-subprocess":
+        ctx.reach("hr.multi-files.subprocess")
+    if len(set(lens)) > 1:
+        ctx.reach("hr.multi-files.different-lengths")
+    if lens[0] == 0 and max(lens) > 0:
+        ctx.reach("hr.multi-files.empty-file-first")
+    if sub in ("head", "tail"):
+        n = cand["n"] if cand.get("n") is not None else M.HR_DEFAULT_LINES
+        if M.clamp_leak_possible(lens, n):
+            ctx.reach(f"hr.multi-files.{sub}.earlier-file-shorter-than-n-and-than-later-file")
+    verdict = evaluate_multi(files, cand, res)
+    ctx.trace(("hr", "multi-files", sub, len(files), verdict[0] if verdict else "ok"))
+    if verdict is None:
+        return
+    k, what, detail = verdict
+    # control: every file alone with the same options; a failure there is not about several files
+    for f, c in files:
+        sc = single_of(cand, c)
+        sv = evaluate(f, sc, execute(f, sc))
+        if sv is not None:
+            k, what, detail = sv[0], sv[1], f"(also with this file alone) {sv[2]}"
+            break
+    logs: list[LogState] = []
+    refs = []
+    for f, c in files:
+        if not any(f is x for x in logs):
+            logs.append(f)
+        refs.append([next(i for i, x in enumerate(logs) if x is f), c])
+    ctx.violation(k, what, {"logs": [x.witness_log() for x in logs], "case": dict(cand, files=refs), "argv": res.get("argv"), "detail": detail[:600],
+                            "n_records_in_files": lens})
+
+
+def run_multi_files(ctx: Any, st: LogState, rng: random.Random, count: int = 6) -> None:
+    """hr invocations naming several different files (this log, earlier logs of the shard, an empty log) in head/tail/plain/
+    reverse mode."""
+    if len(st.raw) > (1 << 19):
+        return
+    if Env.empty is None:
+        Env.empty = build_log(ctx, {"file_level": "trace", "logger": "gallia.c17", "specs": []})
+        if Env.empty is None:
+            return
+    pool = [st] + [c for c in Env.companions if c is not st]
+    for _ in range(count):
+        nfiles = rng.choice([2, 2, 3, 3, 4])
+        logs = [rng.choice(pool) for _ in range(nfiles)]
+        logs[rng.randrange(nfiles)] = st
+        k = rng.random()
+        if k < 0.3:
+            logs[0] = Env.empty
+        elif k < 0.4:
+            logs[rng.randrange(1, nfiles)] = Env.empty
+        elif k < 0.65:
+            logs.sort(key=lambda x: x.N)
+        elif k < 0.75:
+            logs.sort(key=lambda x: -x.N)
+        files = [(x, rng.choice(READER_CONTAINERS)) for x in logs]
+        lens = [x.N for x in logs]
+        sub = rng.choice(["tail", "tail", "tail", "head", "head", "forward", "reverse"])
+        cand: dict[str, Any] = {"component": "hr", "container": "files", "mode": "multi-files", "submode": sub,
+                                "pspec": rng.choice([None, "trace", "trace", "8", str(rng.randrange(9))])}
+        if sub in ("head", "tail"):
+            lo, hi = min(lens), max(lens)
+            between = sorted(set(lens))
+            mid = (between[0] + between[1] + 1) // 2 if len(between) > 1 else hi
+            cand["n"] = rng.choice([None, 0, 1, lo, lo + 1, mid, mid, hi, hi, hi + 3, rng.randint(0, hi + 2)])
+            if rng.random() < 0.3:
+                cand["nopt"] = "--lines"
+        if sub == "tail" and rng.random() < 0.4:
+            cand["topt"] = "-t"
+        if Env.multi_sub_left > 0 and len(set(lens)) > 1 and sum(len(x.raw) for x in logs) < (1 << 18):
+            Env.multi_sub_left -= 1
+            cand["component"] = "hr-subprocess"
+        run_multi_case(ctx, files, cand)
 
 
 # ---------------------------------------------------------------------------------------------
@@ -1134,8 +1403,10 @@ def process_log(ctx: Any, rng: random.Random, logdef: dict[str, Any], regen: dic
                 Env.sub_left -= 1
         for _ in range(2):
             run_history(ctx, st, rng)
+        run_history(ctx, st, rng, lead="iter-len")
+        run_multi_files(ctx, st, rng)
     finally:
-        drop_log(st)
+        retire_log(st)
 
 
 # ---------------------------------------------------------------------------------------------
@@ -1144,6 +1415,7 @@ def run(ctx: Any, params: dict[str, Any]) -> None:
     tz = [None, "VFA-05:30", "VFB+03"][part % 3]
     setup_process(ctx, tz)
     Env.sub_left = params["sub"]
+    Env.multi_sub_left = max(1, params["sub"] // 6)
     deadline = time.monotonic() + params["wall"]
     rng = ctx.rng
     edges = edge_logdefs(ctx.tier)
@@ -1159,14 +1431,29 @@ def run(ctx: Any, params: dict[str, Any]) -> None:
         force_long = j == 3 and part % 4 == 0
         ld = gen_logdef(lrng, params["maxlen"], force_long)
         process_log(ctx, rng, ld, {"seedstr": seedstr, "maxlen": params["maxlen"], "force_long": force_long}, False, deadline)
+    drop_companions()
 
 
 def replay(ctx: Any, witness: dict[str, Any]) -> None:
     setup_process(ctx, None)
-    log = witness["log"]
-    if "specs" not in log:
-        g = log["regen"]
-        log = gen_logdef(random.Random(g["seedstr"]), g["maxlen"], g.get("force_long", False))
+    def expand(log: dict[str, Any]) -> dict[str, Any]:
+        if "specs" not in log:
+            g = log["regen"]
+            return gen_logdef(random.Random(g["seedstr"]), g["maxlen"], g.get("force_long", False))
+        return log
+
+    if "logs" in witness:  # several files on one hr command line
+        sts = [build_log(ctx, expand(x), None) for x in witness["logs"]]
+        try:
+            if all(x is not None for x in sts):
+                cand = witness["case"]
+                run_multi_case(ctx, [(sts[i], c) for i, c in cand["files"]], cand)
+        finally:
+            for x in sts:
+                if x is not None:
+                    drop_log(x)
+        return
+    log = expand(witness["log"])
     st = build_log(ctx, log, None)
     if st is None:
         return
